@@ -13,14 +13,18 @@ CLAIMED = {
         technique='Coq proof over executable Gallina model + differential correspondence (extracted OCaml) + direct oracle',
         ref='7/C13'),
     'C03': dict(
-        text='Layered theorems on the models of the text exposition (model/Expo.v) and text parser (model/TextParser.v): the parser\'s '
-             'unescaping inverts the exposition\'s escaping for every string, chained str.replace = single pass (more layers are added as '
-             'they are proved; props/C03.v lists exactly what is proved). Tie: byte-exact differential testing of generate_latest '
-             'against the extracted renderer and of text_string_to_metric_families against the extracted parser on generated '
-             'registries, plus the direct round-trip oracle parse(expose(r)) == munge(collect(r)).',
-        note='Partial: the document-level round-trip theorem (L5) is covered by correspondence + direct oracle, not yet by a theorem. '
-             'Trusted: Coq kernel, extraction/driver, CPython int()/float()/repr() (answered by CPython over the oracle pipe), '
-             'str.strip whitespace table, StringIO line splitting.',
+        text='Layered theorems on the models of the text exposition (model/Expo.v) and text parser (model/TextParser.v), for ARBITRARY '
+             'names, label names, label values and help texts: L1 unescape(escape s) = s; L2 a quoted escaped string is skipped by the '
+             'quote-aware scanner; L3 the label block is read back exactly and in order; L4 every sample line (bare or quoted name) is '
+             'read back as exactly that sample; L5 the exposition of a registry is a sequence of blocks and the parser reads a document '
+             'of blocks back as one family per block, in order, with the documented name/type mapping (counter _total, untyped -> '
+             'unknown, trailing _created/_gsum/_gcount gauges) and the help text up to trailing whitespace. Tie: byte-exact differential '
+             'testing of generate_latest against the extracted renderer and of text_string_to_metric_families against the extracted '
+             'parser on generated registries, plus the direct round-trip oracle parse(expose(r)) == munge(collect(r)).',
+        note='Hypotheses of L4/L5 are CPython facts only (the float token is a plain token and int()/float() read it back; checked per '
+             'case by the harness) plus well-formedness the registry guarantees (distinct non-reserved label keys, consecutive blocks '
+             'differently named, sample names allowed by the type). Trusted: Coq kernel, extraction/driver, CPython int()/float()/repr() '
+             '(answered by CPython over the oracle pipe), str.strip whitespace table, StringIO line splitting.',
         technique='Coq proof over executable Gallina models + differential correspondence + direct round-trip oracle',
         ref='7/C03'),
     'C04': dict(
